@@ -41,6 +41,8 @@ class Monitor:
                     ns.setdefault(k, v)
         import types as _t
         ns["TickGen"] = _t.GeneratorType
+        import uuid as _uuid
+        ns["UUID"] = _uuid.UUID
         self.ns = ns
         self.ev = Evaluator(S, ns)
         self.violations: list[dict] = []
@@ -54,7 +56,7 @@ class Monitor:
         self.registry = {}
         for cname in S.classes:
             cls = ns.get(cname)
-            if isinstance(cls, type) and "__init__" in cls.__dict__:
+            if isinstance(cls, type) and "__init__" in cls.__dict__ and str(getattr(cls, "__module__", "")).startswith("eudoxia"):
                 reg = weakref.WeakSet()
                 self.registry[cname] = reg
                 orig = cls.__dict__["__init__"]
@@ -70,6 +72,7 @@ class Monitor:
                     return init
                 cls.__init__ = make(orig, reg)
         self.ev.registry = self.registry
+        self.eudoxia_classes = [v for v in ns.values() if isinstance(v, type) and str(getattr(v, "__module__", "")).startswith("eudoxia")]
 
     # -------------------------------------------------------------------------------------------
     def resolve(self, q):
@@ -147,7 +150,7 @@ class Monitor:
             is_init = q.endswith(".__init__")
             try:
                 roots = [v for k, v in env.items() if not (is_init and k == "self")]
-                snap = Snapshot(roots)
+                snap = Snapshot(roots, mon.eudoxia_classes)
             except Exception:
                 snap = None
             try:
@@ -175,8 +178,9 @@ class Monitor:
             except Skip:
                 self.stats["clauses_skipped"] += 1
                 continue
-            except RecursionError:
+            except Exception:
                 self.stats["clauses_skipped"] += 1
+                self.stats["clauses_errors"] = self.stats.get("clauses_errors", 0) + 1
                 continue
             if not ok:
                 self.record(q, f"{kind}:{label}", body, env, tags if tags is not None else c.owners)
